@@ -42,9 +42,13 @@ func (m *md5Hash) OnPack(src []byte) ([]byte, error) {
 	if err != nil {
 		return nil, err
 	}
-	src = append(src, content...)
+	// do not append to src itself: it may be the caller's body slice,
+	// whose spare capacity belongs to the caller
+	dst := make([]byte, 0, len(src)+len(content))
+	dst = append(dst, src...)
+	dst = append(dst, content...)
 
-	return src, nil
+	return dst, nil
 }
 
 func (m *md5Hash) OnUnpack(src []byte) ([]byte, error) {
